@@ -45,6 +45,8 @@ pub enum Hs5 {
     Accept { keep_alive: Option<u16>, max_send: Option<u16> },
     Refuse(u8),
     Fail,
+    /// refuse with a CONNACK that carries a reason string of this length and this many user properties (`fail_with`)
+    RefuseWith { code: u8, reason_len: u16, props: u8 },
 }
 
 impl Default for Hs5 {
@@ -442,6 +444,16 @@ pub async fn server_pipeline(
                 }
                 Hs5::Refuse(code) => Ok(h.failed(codec::ConnectAckReason::try_from(code).unwrap_or(codec::ConnectAckReason::NotAuthorized))),
                 Hs5::Fail => Err(AppErr { tag: "handshake-fail", ack: None }),
+                Hs5::RefuseWith { code, reason_len, props } => {
+                    let mut ack = codec::ConnectAck { reason_code: codec::ConnectAckReason::try_from(code).unwrap_or(codec::ConnectAckReason::NotAuthorized), ..Default::default() };
+                    if reason_len > 0 {
+                        ack.reason_string = Some(ByteString::from("r".repeat(usize::from(reason_len))));
+                    }
+                    for i in 0..props {
+                        ack.user_properties.push((ByteString::from(format!("k{i}")), ByteString::from("value")));
+                    }
+                    Ok(h.fail_with(ack))
+                }
             }
         }
     };
